@@ -44,28 +44,62 @@ def sampled_decls(c, n):
     VERIF_SEED (c.seed). Each behaviour builds one declaration step by step and prints it as JSON."""
     if n <= 0:
         return []
-    cfg = vlib.write_cfg(c, "declgen.cfg", "SPECIFICATION GSpec\nINVARIANT Emit\nCHECK_DEADLOCK FALSE\n")
-    workers = 4
-    r = vlib.tlc(SPEC_DIR, "GattDeclGen.tla", cfg, simulate=(n + workers - 1) // workers + 1, depth=40,
-                 seed=c.seed, workers=workers, timeout=600)
+    # one worker: with several workers TLC's RandomElement stream depends on thread scheduling
+    r = vlib.tlc(SPEC_DIR, "GattDeclGen.tla", "DeclGen.cfg", simulate=2 * n + 4, depth=40, seed=c.seed, workers=1, timeout=600)
     if r.violated or r.error:
         raise vlib.ToolFailure("declaration sampler failed: %s %s\n%s" % (r.violated, r.error, r.out[-3000:]))
     out, seen = [], set()
     for p in r.prints:
         if p and p[0] == "DECL":
-            d = json.loads(p[1])
+            d = human_from_norm(json.loads(p[1]))
             key = json.dumps(d, sort_keys=True)
             if key in seen:
                 continue
             seen.add(key)
-            d["name"] = "sample_%03d" % (len(out) + 1)
             out.append(d)
-    out.sort(key=lambda d: json.dumps(d, sort_keys=True))     # TLC workers print in any order
     for i, d in enumerate(out):
         d["name"] = "sample_%03d" % (i + 1)
     if len(out) < min(n, 3):
         raise vlib.ToolFailure("declaration sampler produced only %d declarations\n%s" % (len(out), r.out[-2000:]))
     return out[:n]
+
+
+def uuid_text(le):
+    be = bytes(reversed(le)).hex().upper()
+    return be if len(le) == 2 else "%s-%s-%s-%s-%s" % (be[0:8], be[8:12], be[12:16], be[16:20], be[20:32])
+
+
+def human_from_norm(n):
+    """normalized declaration (as printed by GattDeclGen) -> input format of gen_server.py; notation only"""
+    o = n["opts"]
+    srv = {"write_queue": o["wq"], "max_mtu": o["mtu"], "encryption": o["enc"], "gap_service": o["gap"]}
+    if o.get("has_sname"):
+        srv["name"] = bytes(o["sname"]).decode()
+    if o.get("appearance"):
+        srv["appearance"] = o["appearance"]
+    services = []
+    for s in n["services"]:
+        chars = []
+        for ch in s["chars"]:
+            vk = ch["vkind"]
+            if vk in ("bound", "const"):
+                val = {"kind": vk, "size": len(ch["init"])}
+            elif vk == "fixed":
+                val = {"kind": vk, "bytes": ch["init"]}
+            elif vk == "fixed_uint":
+                val = {"kind": vk, "width": len(ch["init"]), "value": int.from_bytes(bytes(ch["init"]), "little")}
+            else:
+                val = {"kind": vk, "size": len(ch["init"]), "read": ch["hread"], "write": ch["hwrite"]}
+            c2 = {"uuid": uuid_text(ch["uuid"]), "value": val, "no_read": ch["no_read"], "no_write": ch["no_write"],
+                  "notify": ch["notify"], "indicate": ch["indicate"], "handle": ch["handle"], "encryption": ch["enc"]}
+            if ch["has_name"]:
+                c2["name"] = bytes(ch["name"]).decode()
+            if ch["handles"][0]:
+                c2["handles"] = ch["handles"]
+            chars.append(c2)
+        services.append({"uuid": uuid_text(s["uuid"]), "secondary": s["secondary"], "handle": s["handle"],
+                         "includes": s["includes"], "encryption": s["enc"], "chars": chars})
+    return {"name": n.get("name", "generated"), "comment": "sampled by TLC from GattDeclGen.tla", "server": srv, "services": services}
 
 
 def load_decls(c, n_sampled):
